@@ -63,7 +63,9 @@ fn panic_text(e: Box<dyn std::any::Any + Send>) -> String {
 
 /// writes one instance with the given properties and reads it back: Ok(read properties) or Err(stage, text)
 fn roundtrip(format: &str, class: &str, props: &BTreeMap<String, Variant>) -> Result<BTreeMap<String, Variant>, (String, String)> {
-    let mut b = InstanceBuilder::new(class).with_name(class);
+    // a name of its own (not the class name, which a reader falls back to when it loses the Name)
+    let own_name = format!("default {class}");
+    let mut b = InstanceBuilder::new(class).with_name(own_name.as_str());
     for (k, v) in props {
         b = b.with_property(k.as_str(), v.clone());
     }
@@ -102,7 +104,67 @@ fn roundtrip(format: &str, class: &str, props: &BTreeMap<String, Variant>) -> Re
     if inst.class.as_str() != class {
         return Err(("read-shape".into(), format!("class read back as {}", inst.class)));
     }
+    if inst.name != own_name {
+        return Err(("read-name".into(), format!("the instance named {own_name:?} is read back as {:?}", inst.name)));
+    }
     Ok(inst.properties.iter().map(|(k, v)| (k.to_string(), v.clone())).collect())
+}
+
+/// the bundled database written the way rbx_reflector writes `database.msgpack` (rmp_serde, positional) must load again and
+/// describe the same classes, superclass links, descriptors and defaults: the Serialize and Deserialize sides of
+/// rbx_reflection's descriptor types agree (the bundled file is the output of exactly this writer)
+fn reload_database() -> Vec<String> {
+    let db = rbx_reflection_database::get();
+    let mut out = Vec::new();
+    let bytes = match catch_unwind(AssertUnwindSafe(|| rmp_serde::to_vec(db))) {
+        Ok(Ok(b)) => b,
+        Ok(Err(e)) => return vec![format!("the database cannot be written as MessagePack: {e}")],
+        Err(_) => return vec!["writing the database as MessagePack panics".to_string()],
+    };
+    let back: rbx_reflection::ReflectionDatabase<'static> = match catch_unwind(AssertUnwindSafe(|| rmp_serde::from_slice::<rbx_reflection::ReflectionDatabase<'static>>(Box::leak(bytes.into_boxed_slice())))) {
+        Ok(Ok(d)) => d,
+        Ok(Err(e)) => return vec![format!("the database written as MessagePack ({}) does not load again: {e}", "rmp_serde::to_vec")],
+        Err(_) => return vec!["loading the re-written database panics".to_string()],
+    };
+    if back.classes.len() != db.classes.len() || back.enums.len() != db.enums.len() {
+        out.push(format!("{} classes / {} enums written, {} / {} loaded", db.classes.len(), db.enums.len(), back.classes.len(), back.enums.len()));
+    }
+    for (n, c) in db.classes.iter() {
+        let Some(c2) = back.classes.get(n.as_ref()) else {
+            out.push(format!("class {n} is missing after the reload"));
+            continue;
+        };
+        if c.superclass.as_deref() != c2.superclass.as_deref() {
+            out.push(format!("class {n}: superclass {:?} reloads as {:?}", c.superclass, c2.superclass));
+        }
+        if c.properties.len() != c2.properties.len() || c.default_properties.len() != c2.default_properties.len() || c.tags != c2.tags {
+            out.push(format!("class {n}: {} descriptors / {} defaults reload as {} / {}", c.properties.len(), c.default_properties.len(), c2.properties.len(), c2.default_properties.len()));
+        }
+        for (pn, p) in c.properties.iter() {
+            match c2.properties.get(pn.as_ref()) {
+                None => out.push(format!("{n}.{pn} is missing after the reload")),
+                Some(p2) => {
+                    if format!("{:?}", p.kind) != format!("{:?}", p2.kind) || format!("{:?}", p.data_type) != format!("{:?}", p2.data_type) {
+                        out.push(format!("{n}.{pn}: {:?} / {:?} reloads as {:?} / {:?}", p.kind, p.data_type, p2.kind, p2.data_type));
+                    }
+                }
+            }
+        }
+        for (dn, v) in c.default_properties.iter() {
+            match c2.default_properties.get(dn.as_ref()) {
+                None => out.push(format!("default {n}.{dn} is missing after the reload")),
+                Some(v2) => {
+                    if coq_value(v) != coq_value(v2) {
+                        out.push(format!("default {n}.{dn} reloads with another value"));
+                    }
+                }
+            }
+        }
+        if out.len() > 5 {
+            break;
+        }
+    }
+    out
 }
 
 fn short(s: &str) -> String {
@@ -334,6 +396,11 @@ pub fn cli(args: &[String]) -> bool {
             nfail_classes += 1;
         }
         writeln!(obs, "{class} props={} skipped={} bin={} xml={}", props.len(), all.len() - props.len(), status[0], status[1]).unwrap();
+    }
+    if only.is_none() {
+        for l in reload_database() {
+            writeln!(orc, "database C16 reload {l}").unwrap();
+        }
     }
     let (nprobed, nprobe_skipped) = names_probe(&mut orc, &only);
     let types: Vec<String> = by_type.iter().map(|(k, v)| format!("\"{}\": {}", k, v)).collect();
